@@ -51,7 +51,7 @@ extern "C" int history()
     unsigned na = vf_pick(4); for(unsigned i = 0; i < na; ++i) put(a, ma);
     for(unsigned s = 0; s < VF_K; ++s)
     {
-      unsigned op = vf_pick(ma.n ? 8 : 5);
+      unsigned op = vf_pick(ma.n ? 9 : 5);
       if(op == 0) break;
       switch(op)
       {
@@ -71,6 +71,7 @@ extern "C" int history()
                   ma.removeAt(gone);
                 }
                 break; }
+      case 8: { a.clear(); ma.n = 0; int k = (int)vf_pick(4), v = (int)vf_u32(); a.insert(a.end(), Tracked(k), Tracked(v)); ma.put(k, v); break; }   // clear, then load with the end() hint
       case 7: { if(vf_pick(2)) { a.removeFront(); ma.removeAt(0); } else { a.removeBack(); ma.removeAt(ma.n - 1); } break; }
       }
       check(a, ma);
